@@ -72,6 +72,7 @@ type PathResult struct {
 	Violations  []*Violation
 	Unknown     []string
 	NewPrefixes [][]int
+	NewModels   []Model
 	Steps       int
 	Notes       []string
 }
@@ -107,6 +108,7 @@ type Interp struct {
 	inInit   bool
 	unwindDefault int
 	opt         *PathOpts
+	curModel    Model
 	pcSet       map[int]bool
 	conc        *concState
 	nameCount   map[string]int
@@ -133,14 +135,47 @@ func (ip *Interp) goPanic(reason string) {
 
 // ---------- path condition & decisions ----------
 
-// query checks pc ∧ extra (extra may be nil) as one fresh problem.
-func (ip *Interp) query(extra *Term) string {
+// query checks pc ∧ extra (extra may be nil) as one fresh problem. On sat the
+// model is returned (values of every variable in the query).
+func (ip *Interp) query(extra *Term) (string, Model) {
 	as := ip.pc
 	if extra != nil {
 		as = append(append([]*Term{}, ip.pc...), extra)
 	}
 	ip.solver.Load(as)
-	return ip.solver.Check()
+	r := ip.solver.Check()
+	if r != "sat" {
+		return r, nil
+	}
+	var vars []*Term
+	for _, v := range ip.tb.vars {
+		if ip.solver.IsDefined(v) {
+			vars = append(vars, v)
+		}
+	}
+	raw, err := ip.solver.GetValues(vars)
+	if err != nil {
+		ip.res.Unknown = append(ip.res.Unknown, "model extraction: "+err.Error())
+		return "unknown", nil
+	}
+	m := Model{}
+	for _, v := range vars {
+		txt, ok := raw[v.name]
+		if !ok {
+			continue
+		}
+		switch v.sort.K {
+		case KBool:
+			m[v.name] = boolVal(strings.TrimSpace(txt) == "true")
+		case KBV:
+			x, _ := parseBVLit(txt)
+			m[v.name] = mval{bv: x}
+		case KFP:
+			f, _ := parseFPLit(txt)
+			m[v.name] = mval{f: f}
+		}
+	}
+	return r, m
 }
 
 func (ip *Interp) addPC(t *Term) {
@@ -164,7 +199,15 @@ func (ip *Interp) record(d int) {
 	ip.trace = append(ip.trace, d)
 }
 
+func (ip *Interp) enqueueAlt(d int, m Model) {
+	alt := append(append([]int{}, ip.trace...), d)
+	ip.res.NewPrefixes = append(ip.res.NewPrefixes, alt)
+	ip.res.NewModels = append(ip.res.NewModels, m)
+}
+
 // branch decides a (possibly symbolic) condition, forking the path when both sides are feasible.
+// The path keeps a model of its path condition: the side that the model takes is feasible
+// without a solver call; only the other side is queried.
 func (ip *Interp) branch(c *Term) bool {
 	if c.sort.K != KBool {
 		panic("branch on non-bool")
@@ -184,12 +227,37 @@ func (ip *Interp) branch(c *Term) bool {
 		return d == 1
 	}
 	ip.dpos++
-	rt := ip.query(c)
+	nc := ip.tb.Not(c)
+	if side, ok := ip.evalBool(c); ok {
+		other := nc
+		od := 0
+		if !side {
+			other = c
+			od = 1
+		}
+		r, m := ip.query(other)
+		if r == "unknown" {
+			ip.res.Unknown = append(ip.res.Unknown, "branch feasibility")
+		}
+		if r != "unsat" {
+			ip.enqueueAlt(od, m)
+		}
+		if side {
+			ip.record(1)
+			ip.addPC(c)
+		} else {
+			ip.record(0)
+			ip.addPC(nc)
+		}
+		return side
+	}
+	rt, mt := ip.query(c)
 	var rf string
+	var mf Model
 	if rt == "unsat" {
 		rf = "sat"
 	} else {
-		rf = ip.query(ip.tb.Not(c))
+		rf, mf = ip.query(nc)
 	}
 	if rt == "unknown" || rf == "unknown" {
 		ip.res.Unknown = append(ip.res.Unknown, "branch feasibility")
@@ -198,18 +266,20 @@ func (ip *Interp) branch(c *Term) bool {
 	fOK := rf != "unsat"
 	switch {
 	case tOK && fOK:
-		alt := append(append([]int{}, ip.trace...), 0)
-		ip.res.NewPrefixes = append(ip.res.NewPrefixes, alt)
+		ip.enqueueAlt(0, mf)
 		ip.record(1)
 		ip.addPC(c)
+		ip.curModel = mt
 		return true
 	case tOK:
 		ip.record(1)
 		ip.addPC(c)
+		ip.curModel = mt
 		return true
 	case fOK:
 		ip.record(0)
-		ip.addPC(ip.tb.Not(c))
+		ip.addPC(nc)
+		ip.curModel = mf
 		return false
 	}
 	panic(&PathEnd{kind: "infeasible"})
@@ -228,8 +298,7 @@ func (ip *Interp) choose(n int) int {
 	}
 	ip.dpos++
 	for j := n - 1; j >= 1; j-- {
-		alt := append(append([]int{}, ip.trace...), j)
-		ip.res.NewPrefixes = append(ip.res.NewPrefixes, alt)
+		ip.enqueueAlt(j, ip.curModel)
 	}
 	ip.record(0)
 	return 0
@@ -263,51 +332,52 @@ func (ip *Interp) assume(c *Term) {
 		return
 	}
 	ip.dpos++
-	r := ip.query(c)
+	if v, ok := ip.evalBool(c); ok && v {
+		ip.record(1)
+		ip.addPC(c)
+		return
+	}
+	r, m := ip.query(c)
 	if r == "unsat" {
 		panic(&PathEnd{kind: "infeasible"})
 	}
 	if r == "unknown" {
 		ip.res.Unknown = append(ip.res.Unknown, "assume feasibility")
 	}
+	ip.curModel = m
 	ip.record(1)
 	ip.addPC(c)
 }
 
-func (ip *Interp) model() map[string]interface{} {
-	var vars []*Term
+func (ip *Interp) decodeModel(m Model) map[string]interface{} {
+	out := map[string]interface{}{}
+	if m == nil {
+		return out
+	}
 	for _, sv := range ip.symvars {
-		for _, t := range sv.Terms {
-			if t.op == "var" && ip.solver.IsDefined(t) {
-				vars = append(vars, t)
-			}
-		}
+		out[sv.Name] = decodeSymVar(sv, m)
 	}
-	raw, err := ip.solver.GetValues(vars)
-	if err != nil {
-		return map[string]interface{}{"_error": err.Error()}
-	}
-	m := map[string]interface{}{}
-	for _, sv := range ip.symvars {
-		m[sv.Name] = decodeSymVar(sv, raw)
-	}
-	return m
+	return out
 }
 
-func (ip *Interp) violation(kind, label, msg string, cond *Term) {
+// violation records a counterexample; m must satisfy the path condition and the failing condition.
+func (ip *Interp) violation(kind, label, msg string, m Model) {
 	v := &Violation{Label: label, Kind: kind, Msg: msg, Trace: append([]int{}, ip.trace...)}
 	if ip.cur != nil && ip.cur.curInstr != nil {
 		v.Pos = ip.prog.Fset.Position(ip.cur.curInstr.Pos()).String()
 	}
-	r := ip.query(cond)
-	if r == "sat" {
-		v.Model = ip.model()
-	} else if r == "unknown" {
-		ip.res.Unknown = append(ip.res.Unknown, "model for violation "+label)
+	if m == nil {
+		// no model at hand: ask for one of the path condition
+		r, m2 := ip.query(nil)
+		if r == "unsat" {
+			return
+		}
+		if r == "unknown" {
+			ip.res.Unknown = append(ip.res.Unknown, "model for violation "+label)
+		}
+		m = m2
 	}
-	if r == "unsat" {
-		return // not actually reachable
-	}
+	v.Model = ip.decodeModel(m)
 	ip.res.Violations = append(ip.res.Violations, v)
 }
 
@@ -317,7 +387,7 @@ func (ip *Interp) assert(c *Term, label string) {
 			ip.res.Concrete[label]++
 			return
 		}
-		ip.violation("assert", label, "assertion is false on this path", nil)
+		ip.violation("assert", label, "assertion is false on this path", ip.curModel)
 		panic(&PathEnd{kind: "done", msg: "assertion failed"})
 	}
 	if ip.dpos < len(ip.prefix) {
@@ -328,16 +398,36 @@ func (ip *Interp) assert(c *Term, label string) {
 		return
 	}
 	ip.dpos++
-	r := ip.query(ip.tb.Not(c))
+	nc := ip.tb.Not(c)
+	if v, ok := ip.evalBool(c); ok && !v {
+		// the path's own model already falsifies the assertion
+		ip.violation("assert", label, "assertion can fail", ip.curModel)
+		r, m := ip.query(c)
+		if r == "unsat" {
+			panic(&PathEnd{kind: "done", msg: "assertion always fails here"})
+		}
+		if r == "unknown" {
+			ip.res.Unknown = append(ip.res.Unknown, "continuation after violated assert "+label)
+		}
+		ip.curModel = m
+		ip.record(1)
+		ip.addPC(c)
+		return
+	}
+	r, m := ip.query(nc)
 	switch r {
 	case "unsat":
 		ip.res.Asserts[label]++
 		ip.record(1)
 		ip.addPC(c)
 	case "sat":
-		ip.violation("assert", label, "assertion can fail", ip.tb.Not(c))
-		if ip.query(c) == "unsat" {
-			panic(&PathEnd{kind: "done", msg: "assertion always fails here"})
+		ip.violation("assert", label, "assertion can fail", m)
+		if ip.curModel == nil {
+			r2, m2 := ip.query(c)
+			if r2 == "unsat" {
+				panic(&PathEnd{kind: "done", msg: "assertion always fails here"})
+			}
+			ip.curModel = m2
 		}
 		ip.record(1)
 		ip.addPC(c)
@@ -351,11 +441,7 @@ func (ip *Interp) assert(c *Term, label string) {
 func (ip *Interp) cover(label string) {
 	if !ip.res.Covers[label] {
 		ip.res.Covers[label] = true
-		if ip.wantCoverModels {
-			if ip.query(nil) == "sat" {
-				ip.res.CoverModels[label] = ip.model()
-			}
-		}
+		// the witness model is taken at the end of the path (it must satisfy later assumptions too)
 	}
 }
 
@@ -434,7 +520,9 @@ const maxDepth = 400
 
 func (ip *Interp) callFunction(fn *ssa.Function, args []Value, env []Value) Value {
 	if h := ip.lookupIntrinsic(fn); h != nil {
-		return h(ip, fn, args)
+		if r := h(ip, fn, args); r != Value(fallThrough) {
+			return r
+		}
 	}
 	if fn.Blocks == nil {
 		ip.unsupported("call of function without body: " + fn.String())
